@@ -1097,7 +1097,122 @@ func c01JSONRequest(c *an.Ctx) {
 // message (ID and question through SetReply, answer names through replaceResp)
 // on every path that writes it, whatever the response contains.
 func c01AndroidMetric(c *an.Ctx) {
-	c.Floor("C01-R19", 1)
+	c.Floor("C01-R19", 3)
+	decide(c, "C01-R19", "dnssvc/internal/preupstream.(*Middleware).Wrap$1", an.DecideCfg{
+		Dom: an.Domain{"android": an.Bools, "serveerr": an.Bools, "writeerr": an.Bools},
+		OnCall: func(it *an.Interp, name string, args []an.AV) (an.AV, bool) {
+			errOr := func(feat, tag string) an.AV {
+				if it.Feature(feat).IsTrue() {
+					return an.NonNil(tag)
+				}
+				return an.Nil()
+			}
+			switch {
+			case strings.HasSuffix(name, "agdnet.AndroidMetricDomainReplacement"):
+				if args[0].String() != "p2.Question[0].Name" {
+					return an.Sym("replacement looked up for " + args[0].String()), true
+				}
+				if it.Feature("android").IsTrue() {
+					return an.CStr("repl."), true
+				}
+				return an.CStr(""), true
+			case strings.HasSuffix(name, ").serveAndroidMetric"):
+				return an.Sym("android(" + strings.Join(avStrings(args[1:]), ",") + ")"), true
+			case strings.HasSuffix(name, "internal.MakeNonWriter"):
+				return an.NonNil("nwrw(" + args[0].String() + ")"), true
+			case strings.HasSuffix(name, ".ServeDNS"):
+				return errOr("serveerr", "serveErr"), true
+			case strings.HasSuffix(name, "NonWriterResponseWriter).Msg"):
+				return an.NonNil("resp"), true
+			case strings.HasSuffix(name, "MustRequestInfoFromContext"):
+				return an.NonNil("ri"), true
+			case strings.HasSuffix(name, ".db.Record"):
+				return an.Nil(), true
+			case name == "p1.WriteMsg":
+				return errOr("writeerr", "writeErr"), true
+			case strings.HasSuffix(name, "errors.Annotate"):
+				return args[0], true
+			case name == "fmt.Errorf":
+				return an.NonNil("wrapped"), true
+			}
+			return an.AV{}, false
+		},
+		Expect: func(f an.Features, o an.AOutcome) string {
+			find := func(suffix string) (an.Effect, bool) {
+				for _, e := range o.Effects {
+					if e.Kind == "call" && strings.HasSuffix(e.Name, suffix) {
+						return e, true
+					}
+				}
+				return an.Effect{}, false
+			}
+			serve, served := find(".ServeDNS")
+			write, written := find("p1.WriteMsg")
+			rec, recorded := find(".db.Record")
+			if f.B("android") {
+				if served || written || recorded || o.RetString() != `android(p0,*fv:next,p1,p2,"repl.")` {
+					return "a metric-domain query is handed to serveAndroidMetric with this context, handler, writer, request and the replacement name, and nothing else happens; got " + o.RetString()
+				}
+				return ""
+			}
+			if !served || strings.Join(serve.Args, ",") != "p0,nonnil:nwrw(p1),p2" {
+				return "the next handler serves this request through a non-writer; got " + strings.Join(serve.Args, ",")
+			}
+			if f.B("serveerr") {
+				if written || recorded || len(o.Ret) != 1 || o.Ret[0].Kind == an.KNil {
+					return "a handler error is returned; nothing is recorded or written"
+				}
+				return ""
+			}
+			if !recorded || rec.Args[1] != "nonnil:resp" {
+				return "the recorded response is the one the handler produced"
+			}
+			if !written || strings.Join(write.Args, ",") != "p0,p2,nonnil:resp" {
+				return "the handler's response is written once for this request; got " + strings.Join(write.Args, ",")
+			}
+			if f.B("writeerr") != (len(o.Ret) == 1 && o.Ret[0].Kind != an.KNil) {
+				return "a write error is returned; got " + o.RetString()
+			}
+			return ""
+		},
+	})
+	decide(c, "C01-R19", "dnssvc/internal/preupstream.(*Middleware).replaceResp", an.DecideCfg{
+		Dom: an.Domain{"len(p2.Answer)": an.Ints(0, 1, 2), "metric:0": an.Bools, "metric:1": an.Bools},
+		OnCall: func(it *an.Interp, name string, args []an.AV) (an.AV, bool) {
+			switch {
+			case strings.HasSuffix(name, ".Header"):
+				for i := 0; i < 2; i++ {
+					if name == fmt.Sprintf("p2.Answer[%d].Header", i) {
+						return an.NonNil(fmt.Sprintf("hdr%d", i)), true
+					}
+				}
+			case strings.HasSuffix(name, "agdnet.AndroidMetricDomainReplacement"):
+				for i := 0; i < 2; i++ {
+					if args[0].String() == fmt.Sprintf("hdr%d.Name", i) {
+						if it.Feature(fmt.Sprintf("metric:%d", i)).IsTrue() {
+							return an.CStr("repl."), true
+						}
+						return an.CStr(""), true
+					}
+				}
+				return an.Sym("replacement looked up for " + args[0].String()), true
+			}
+			return an.AV{}, false
+		},
+		Expect: func(f an.Features, o an.AOutcome) string {
+			var want []string
+			for i := int64(0); i < f.I("len(p2.Answer)"); i++ {
+				if f.B(fmt.Sprintf("metric:%d", i)) {
+					want = append(want, fmt.Sprintf("hdr%d.Name=p1", i))
+				}
+			}
+			got := o.Stores()
+			if strings.Join(got, " ") != strings.Join(want, " ") {
+				return "every answer owned by the shared metric name (and no other) is renamed to the client's name: " + strings.Join(want, " ") + "; got " + strings.Join(got, " ")
+			}
+			return ""
+		},
+	})
 	decide(c, "C01-R19", "dnssvc/internal/preupstream.(*Middleware).serveAndroidMetric", an.DecideCfg{
 		Dom: an.Domain{"serveerr": an.Bools, "writeerr": an.Bools},
 		OnCall: func(it *an.Interp, name string, args []an.AV) (an.AV, bool) {
@@ -1174,4 +1289,12 @@ func c01AndroidMetric(c *an.Ctx) {
 			return ""
 		},
 	})
+}
+
+
+func avStrings(as []an.AV) (ss []string) {
+	for _, a := range as {
+		ss = append(ss, a.String())
+	}
+	return ss
 }
